@@ -206,6 +206,12 @@ pub struct SimRead<'a> {
     pub data: &'a [u8],
     pub pos: usize,
     pub err_from: Option<usize>,
+    /// one transient failure: the first `read_exact` that runs across this offset gets the bytes before
+    /// it and then an error; cleared once it has fired
+    pub transient_at: Option<usize>,
+    pub transient_fired: bool,
+    /// set by the owning input for the duration of one `Input::read` that runs strictly across the offset
+    pub transient_armed: bool,
     pub plan: IoPlan,
     pub calls: u32,
     pub last_was_eintr: bool,
@@ -239,6 +245,19 @@ impl<'a> std::io::Read for SimRead<'a> {
         };
         let avail = self.data.len() - self.pos;
         let mut k = buf.len().min(chunk).min(avail);
+        if let Some(t) = self.transient_at {
+            if self.pos == t && self.transient_armed {
+                // the bytes before t have been delivered to this read_exact; now it fails, once
+                self.transient_at = None;
+                self.transient_fired = true;
+                let p = self.pos as u64;
+                self.ev(ev::RD_HARD, buf.len() as u64, p);
+                return Err(std::io::Error::new(std::io::ErrorKind::TimedOut, "sim: transient failure"));
+            }
+            if self.pos < t {
+                k = k.min(t - self.pos);
+            }
+        }
         if let Some(e) = self.err_from {
             // bytes at offset >= e cannot be delivered: deliver what lies before, then fail hard
             let before = e.saturating_sub(self.pos);
@@ -285,6 +304,9 @@ pub struct SimInput<'a> {
     pub refused: bool,
     /// `remaining_len` answered `Err` (RlMode::Err) at least once: the input itself reported a failure.
     pub rl_err_returned: bool,
+    /// one transient failure (see `Fault::TransientAt`); `None` once it has fired
+    pub transient_at: Option<usize>,
+    pub transient_fired: bool,
     /// the second task (see `Nest`); set by the executor after construction
     pub hook: Option<NestHook<'a>>,
     /// `read` / `read_byte` calls since the record began (reset by the executor per record)
@@ -308,6 +330,8 @@ impl<'a> SimInput<'a> {
             alloc_bytes: 0,
             refused: false,
             rl_err_returned: false,
+            transient_at: None,
+            transient_fired: false,
             hook: None,
             calls: 0,
             nest_fired: 0,
@@ -319,6 +343,9 @@ impl<'a> SimInput<'a> {
                 data,
                 pos: start,
                 err_from,
+                transient_at: None,
+                transient_fired: false,
+                transient_armed: false,
                 plan,
                 calls: 0,
                 last_was_eintr: false,
@@ -368,7 +395,16 @@ impl<'a> SimInput<'a> {
     fn read_inner(&mut self, into: &mut [u8]) -> Result<(), Error> {
         if let Some(io) = self.io.as_mut() {
             // real codec::IoReader + real std read_exact over the SimRead stub
+            if let Some(t) = self.transient_at {
+                io.transient_at = Some(t);
+                io.transient_armed = io.pos < t && t < io.pos + into.len();
+            }
             let r = IoReader(&mut *io).read(into);
+            io.transient_armed = false;
+            if io.transient_fired {
+                self.transient_at = None;
+                self.transient_fired = true;
+            }
             self.pos = io.pos;
             for (k, a, b) in io.pending.drain(..) {
                 self.log.ev(k, a, b);
@@ -383,6 +419,17 @@ impl<'a> SimInput<'a> {
             return r;
         }
         let end = self.pos + into.len();
+        if let Some(t) = self.transient_at {
+            if self.pos < t && t < end {
+                // the bytes before t are consumed by this read, then it fails; later reads carry on from t
+                self.transient_at = None;
+                self.transient_fired = true;
+                self.refused = true;
+                self.log.ev(ev::IN_READ_IOERR, into.len() as u64, self.pos as u64);
+                self.pos = t;
+                return Err("sim: transient i/o failure".into());
+            }
+        }
         if let Some(e) = self.err_from {
             if end > e && !into.is_empty() {
                 self.refused = true;
